@@ -3,7 +3,12 @@ package main
 import (
 	"fmt"
 	"gvh/internal/sx"
+	"os"
+	"path/filepath"
 	"strings"
+	"time"
+
+	"gvh/internal/scratch"
 
 	"gvh/internal/rng"
 )
@@ -84,7 +89,11 @@ func init() {
 			return err
 		}
 		e.rep.Rule += "; plus argument-less (and context-taking) methods of the source struct as sources: matched by name, named by goverter:map directly and at the end of value / pointer / double-pointer paths, and as the source of `map … | FUNC`"
-		return runFamilies(e, "C05", "source-methods", famMethods, b, per, 6, nil, nil)
+		if err := runFamilies(e, "C05", "source-methods", famMethods, b, per, 6, nil, nil); err != nil {
+			return err
+		}
+		e.rep.Rule += "; plus pinned pairs of methods over one struct pair (S->T next to *S->*T / *S->T / S->*T) where the pointer variant carries field settings that the inner struct conversion would bypass, with and without context arguments on either method: the run must be refused (property-level oracle through the binary)"
+		return c05Bypass(e)
 	}
 	campaigns["C08"] = func(e *env) error {
 		e.rep.Rule = "cases = (converter, method, value): enum pairs over int, uint8 and string underlying types with duplicate-valued members, mapped by enum:transform regex and enum:map (members and actions), with every enum:unknown policy (@error, @panic, @ignore, a member, missing), in top-level, struct field, slice element and map value positions; executed over member and non-member values; compared with Gv.Gen (outcome) + Gv.Eval (switch semantics). non-trivial = every call or diagnostic; distinct = (converter, method, value)"
@@ -150,4 +159,54 @@ func nillableOracle(e *env) func(c *k2Call) {
 			}
 		}
 	}
+}
+
+// c05Bypass: field settings written on the pointer variant of a struct pair are bypassed when the inner struct conversion is
+// done by a sibling method: goverter must refuse (C05: every setting takes effect or generation fails) — whatever context
+// arguments the two methods have. Judged through the binary: exit 1 and the diagnostic about overlapping struct settings.
+func c05Bypass(e *env) error {
+	bin := goverterBin(e)
+	base := filepath.Join(e.scratch, "c05bypass")
+	type variant struct{ ptrSig, ptrCtx, subCtx string }
+	var vs []variant
+	for _, sig := range []string{"(source *A%s) *B", "(source *A%s) B", "(source A%s) *B"} {
+		for _, pc := range []string{"", "lang"} {
+			for _, sc := range []string{"", "lang"} {
+				if sc != "" && pc == "" {
+					continue // the sub method would need a context the pointer method cannot supply: another diagnostic
+				}
+				vs = append(vs, variant{sig, pc, sc})
+			}
+		}
+	}
+	for i, v := range vs {
+		root := filepath.Join(base, fmt.Sprintf("b%d", i))
+		ctxP, docP, ctxS, docS := "", "", "", ""
+		if v.ptrCtx != "" {
+			ctxP, docP = ", lang string", "\t// goverter:context lang\n"
+		}
+		if v.subCtx != "" {
+			ctxS, docS = ", lang string", "\t// goverter:context lang\n"
+		}
+		src := "package p\n\nimport \"strings\"\n\ntype A struct{ Name string }\ntype B struct{ Title string }\n\nfunc Upper(s string) string { return strings.ToUpper(s) }\n\n" +
+			"// goverter:converter\n// goverter:useZeroValueOnPointerInconsistency\ntype C interface {\n" + docP + "\t// goverter:map Name Title | Upper\n\tConvert" + fmt.Sprintf(v.ptrSig, ctxP) + "\n" +
+			docS + "\t// goverter:map Name Title\n\tConvertSub(source A" + ctxS + ") B\n}\n"
+		tree := scratch.Tree{"go.mod": "module example.org/bypass\n\ngo 1.18\n", "p/p.go": src}
+		if err := scratch.Write(root, tree); err != nil {
+			return err
+		}
+		res := scratch.Run(bin, root, []string{"gen", "./p"}, nil, 120*time.Second)
+		e.rep.Eval(1)
+		e.rep.Nontrivial("bypass:" + src)
+		e.rep.Count("bypass.exit" + fmt.Sprint(res.Exit))
+		if res.Exit != 1 || !strings.Contains(res.Stderr, "Overlapping struct settings") {
+			used := ""
+			if c, err := os.ReadFile(filepath.Join(root, "p/generated/generated.go")); err == nil {
+				used = string(c)
+			}
+			e.rep.Violation("", map[string]any{"source": src, "exit": res.Exit, "stderr": truncate(res.Stderr, 800), "generated": truncate(used, 1500),
+				"broken": "C05: the field settings of the pointer-variant method (`map Name Title | Upper`) are bypassed by the sibling that converts the struct pair, and the run is not refused"}, false)
+		}
+	}
+	return nil
 }
